@@ -43,6 +43,7 @@ type tok10 struct {
 	twin            int              // index of the token whose SYMBOL equals this token's MIN UNIT (-1: none)
 	twinOf          int              // index of the token whose MIN UNIT equals this token's SYMBOL (-1: none)
 	restored        bool             // had a contract when the module went through a genesis export/import
+	parked          *big.Int         // coins of this denom that users sent to the token module account itself (nil = none)
 }
 
 var c10Tokens = []tok10{
@@ -259,6 +260,14 @@ func (m *m10) Next(t *rapid.T) op10 {
 	k := rapid.IntRange(0, 99).Draw(t, "kind")
 	if len(dep) == 0 && k >= 12 && k < 78 {
 		k = 0
+	}
+	if rapid.IntRange(0, 1<<20).Draw(t, "park")%14 == 13 {
+		// somebody sends coins of a token to the token module account itself (it is not a blocked address): they are
+		// nobody's conversion and must stay where they are, whatever is converted afterwards
+		op := op10{Kind: "park", Who: rapid.IntRange(0, 4).Draw(t, "who")}
+		op.Tok = m.pickTok(t, dep)
+		op.Amount = fmt.Sprint(rapid.IntRange(1, 9).Draw(t, "dust"))
+		return op
 	}
 	switch {
 	case k < 12: // deploy
@@ -767,6 +776,22 @@ func (m *m10) Apply(op op10) error {
 			}
 		}
 
+	case "park":
+		conversion = false
+		res = c.Deliver(banktypesSend(e.Users[op.Who].Addr, c09Module, tk.minUnit, gen.ToInt(amount)))
+		if natBal.Cmp(amount) < 0 {
+			reject = "insufficient balance"
+		}
+		exp.Add(e.Users[op.Who].Addr, tk.minUnit, new(big.Int).Neg(amount))
+		exp.Add(c09Module, tk.minUnit, amount)
+		commit = func() {
+			if tk.parked == nil {
+				tk.parked = new(big.Int)
+			}
+			tk.parked.Add(tk.parked, amount)
+			m.cls["coins-parked-on-the-module-account"] = true
+		}
+
 	case "mint", "burn":
 		conversion = false
 		owner := e.Users[op.Who].Addr
@@ -1079,8 +1104,15 @@ func (m *m10) invariants() error {
 	if n := len(c.E.K.Token.GetTokens(c.Ctx, nil)); n != nRegistered {
 		return pbt.Failf("C10/token-record", "the store holds %d token records, the model %d", n, nRegistered)
 	}
-	if bal := c.E.App.BankKeeper.GetAllBalances(c.Ctx, c09Module); !bal.IsZero() {
-		return pbt.Failf("C10/module-account-nonzero", "token module account holds %s", bal)
+	// the token module account holds what users parked there and nothing else: conversions pass through it without a rest
+	want := sdk.Coins{}
+	for _, tk := range m.toks {
+		if tk.parked != nil && tk.parked.Sign() > 0 {
+			want = want.Add(sdk.Coin{Denom: tk.minUnit, Amount: gen.ToInt(tk.parked)})
+		}
+	}
+	if bal := c.E.App.BankKeeper.GetAllBalances(c.Ctx, c09Module); !bal.Equal(want) {
+		return pbt.Failf("C10/module-account-nonzero", "token module account holds %s, users parked %s there", bal, want)
 	}
 	return nil
 }
